@@ -121,6 +121,8 @@ def build(spec):
         flags.append("-no-simplification")
     if ro.random() < 0.3:
         flags.append("-push0")
+    if ro.random() < 0.2:
+        flags.append("-pop-uninterpreted")
     flags += ["-solver", "z3"]
     return {"argv": flags, "blocks": [AJ.items_to_text(b, 2) for b in gen_blocks(rw, 5)], "peers": PEERS,
             "max_len": 10 if spec["tier"] == "quick" else 14, "greedy": True}
@@ -218,7 +220,7 @@ def enum_task(spec, summ):
     (operands come from the input stack), front-end only; bounds judged by the brute-force search alone."""
     first = ENUM_VOCAB[spec["index"] - SWEEP_TASKS]
     blocks = [[first]] + [[first, a] for a in ENUM_VOCAB] + [[first, a, b] for a in ENUM_VOCAB for b in ENUM_VOCAB]
-    flags = ["-length"] + (["-push0"] if spec["index"] % 2 else [])
+    flags = ["-length"] + [[], ["-push0"], ["-pop-uninterpreted"]][spec["index"] % 3]
     op = {"argv": flags, "blocks": [AJ.items_to_text(b, 2) for b in blocks]}
     st, specs = procs.run_sut(pipe.run_specs, op, cpu_s=600)
     if st != "ok":
